@@ -101,36 +101,37 @@ type pathCtx struct {
 	nterm    int
 	steps    int64
 	maxSteps int64
-	dead     bool // path became infeasible through assume
-	concrete bool // concrete (witness) mode: nondets come from witness
+	deadline time.Time // wall-clock limit of this path (zero: none)
+	dead     bool      // path became infeasible through assume
+	concrete bool      // concrete (witness) mode: nondets come from witness
 	witness  map[string]string
 	floatFP  bool // model for int->float conversions of symbolic ints
 	// memory monitor
-	watching   bool
-	fresh      map[*value]bool
-	allowed    map[*value]bool
-	pools      map[*value][]value // sync.Pool model: LIFO of Put objects per pool
-	allocLimit int64
-	mapOrder   int
-	nsym       int // number of symbolic branches on this path
-	freshMaps  map[interface{}]bool
-	ufs        map[string]bool
-	epsDeclared bool
-	maxSym     int
-	merge      *mergeCtx
-	defCache   map[string]string
-	decided    map[string]bool
-	feasMs     int
+	watching     bool
+	fresh        map[*value]bool
+	allowed      map[*value]bool
+	pools        map[*value][]value // sync.Pool model: LIFO of Put objects per pool
+	allocLimit   int64
+	mapOrder     int
+	nsym         int // number of symbolic branches on this path
+	freshMaps    map[interface{}]bool
+	ufs          map[string]bool
+	epsDeclared  bool
+	maxSym       int
+	merge        *mergeCtx
+	defCache     map[string]string
+	decided      map[string]bool
+	feasMs       int
 	latticeFirst bool
-	sqrtCache  map[string]string
-	intOrig    map[string]intOrigin
-	numTokens  []numToken
+	sqrtCache    map[string]string
+	intOrig      map[string]intOrigin
+	numTokens    []numToken
 }
 
 // control-flow panics used by the engine
-type pathEnd struct{ reason string }        // path is over (infeasible / step limit)
-type unsupported struct{ what string }      // encoder cannot handle something
-type goPanic struct{ msg string }           // Go run-time panic (index out of range, nil deref...)
+type pathEnd struct{ reason string }   // path is over (infeasible / step limit)
+type unsupported struct{ what string } // encoder cannot handle something
+type goPanic struct{ msg string }      // Go run-time panic (index out of range, nil deref...)
 
 func (g goPanic) Error() string { return "runtime error: " + g.msg }
 
@@ -242,6 +243,9 @@ func (pc *pathCtx) branchMerged(cond string) bool {
 
 // branch decides a symbolic condition. Returns the side taken.
 func (pc *pathCtx) branch(cond string) bool {
+	if !pc.deadline.IsZero() && time.Now().After(pc.deadline) {
+		panic(pathEnd{"path-time-limit"})
+	}
 	if cond == "true" {
 		return true
 	}
